@@ -121,6 +121,7 @@ pub fn run(ctx: &Ctx) -> i32 {
         &mut jobs,
     );
     rs::rs_syndrome_prefix(ctx.tier, &mut jobs);
+    rs::rs_hankel_singular(ctx.tier, &mut jobs);
     rs::run_jobs(ctx, &jobs, |job, orig, recv, info, w| {
         let si = match job {
             Job::Single { si, .. } | Job::Subsets { si, .. } | Job::Burst { si, .. } | Job::Spread { si, .. } | Job::AllBlocks { si, .. } | Job::SyndromePrefix { si, .. } => *si,
@@ -151,7 +152,7 @@ pub fn run(ctx: &Ctx) -> i32 {
         "distinct_nontrivial": ctx.counter("nontrivial"),
         "rule": format!("fault patterns of weight <= floor(k/2) per interleaved block on reference codewords (zero data, LCG data) of all 48 sizes: RS-1 every position x error values ({}); \
 RS-2 bursts at every in-block offset (data region, EC region, across the boundary), spread patterns and all blocks damaged at once for weights 2, t/2, t-1, t; for the six sizes with <= 24 codewords all \
-position subsets of size 2..min(t,3) x 8 values and of size t x 2 values (quick: not for the two largest of them beyond size 4); RS-S syndrome-prefix family: for weights w = 2..min(t,5|6) and four position sets per block (start of data, across the data/EC boundary, spread, end of EC) the error values that realise every syndrome prefix (S_1..S_w) over {{0}} and powers of 2 (8^w for w <= 4) - this drives the decoder through its singular cases (leading zero syndromes, geometric syndrome sequences) inside the guaranteed region; plus damage through flipped modules of the rendered symbol \
+position subsets of size 2..min(t,3) x 8 values and of size t x 2 values (quick: not for the two largest of them beyond size 4); RS-S syndrome-prefix family: for weights w = 2..min(t,5|6) and four position sets per block (start of data, across the data/EC boundary, spread, end of EC) the error values that realise every syndrome prefix (S_1..S_w) over {{0}} and powers of 2 (8^w for w <= 4) - this drives the decoder through its singular cases (leading zero syndromes, geometric syndrome sequences) inside the guaranteed region; RS-H Hankel-singular family: for sizes with t >= 5, w = 5..7 (9) errors at two or three position sets per block, two error values swept over all 255 x 255 combinations and the last one solved so that the leading Hankel minor H_j1 of the syndrome sequence vanishes (j1 = 2..w-1), kept when a second, non-adjacent leading minor vanishes as well - patterns within the capacity that take the decoder through two separate singular steps in one block (a 1/65025 coincidence for random patterns); plus damage through flipped modules of the rendered symbol \
 (t codewords of each block at three offsets, 1-8 modules each; one module of every codeword in turn; for sizes up to 72 codewords t codewords at every burst offset; module positions from R3/R4). Patterns are distinct by construction, all non-trivial. Oracle: Ok and exact restoration.",
             if ctx.tier == Tier::Thorough { "all 255" } else { "1, 0x80, 0xFF everywhere; all 255 at every position of the sizes with <= 300 codewords and at the first/last data and EC codeword of every block of the larger ones" }),
         "exhaustive": true,
